@@ -13,6 +13,7 @@ enum {
 	D_FLIP_LEAF, D_FLIP_SUB,
 	D_KEY_MISMATCH_SIGN, D_KEY_MISMATCH_ENC, D_ENC_FOREIGN,
 	D_NO_CLIENT_CERT, D_DROP_CLIENT_CERT, D_EMPTY_CLIENT_CERT, D_DROP_CERT_VERIFY,
+	D_FOREIGN_ROOT_SAMENAME_SENT, D_FOREIGN_ROOT_OTHERNAME_SENT,
 	D_NKINDS
 };
 static const char *g_dnames[D_NKINDS] = {
@@ -23,6 +24,7 @@ static const char *g_dnames[D_NKINDS] = {
 	"flipped_bit_in_leaf", "flipped_bit_in_intermediate",
 	"sign_key_mismatch", "tlcp_enc_key_mismatch", "tlcp_enc_cert_foreign_issuer",
 	"no_client_certificate", "client_certificate_removed", "client_certificate_empty", "certificate_verify_removed",
+	"foreign_root_same_name_sent_in_chain", "foreign_root_other_name_sent_in_chain",
 };
 
 /* which defects make sense for (proto, role, depth) */
@@ -124,6 +126,10 @@ static int build_defect(const Plan *p, const CredSet *good, CredSet *bad, Plan *
 	switch (p->defect) {
 	case D_FOREIGN_ROOT_SAMENAME: o.foreign_root = 1; derive = 1; break;
 	case D_FOREIGN_ROOT_OTHERNAME: o.foreign_root = 2; derive = 1; break;
+	/* the prover also sends its self-made root at the end of the chain (a verifier must anchor the chain in
+	 * ITS OWN copy of a trusted certificate, not in whatever CA certificate the peer supplies under that name) */
+	case D_FOREIGN_ROOT_SAMENAME_SENT: o.foreign_root = 1; o.root_in_chain = 1; derive = 1; break;
+	case D_FOREIGN_ROOT_OTHERNAME_SENT: o.foreign_root = 2; o.root_in_chain = 1; derive = 1; break;
 	case D_LEAF_EXPIRED: o.leaf_nb = nb - 400 * 86400LL; o.leaf_na = SIM_T0 - edge; derive = 1;
 		g_win_nb = o.leaf_nb; g_win_na = o.leaf_na;
 		snprintf(note, nlen, "leaf notAfter = now-%lld", (long long)edge); break;
